@@ -125,6 +125,14 @@ def run(ctx):
         p = gen_program(rng)
         if len(p) < 400:
             progs.append("wire build " + " ".join(p))
+    # variants whose contained type has a long signature (a struct of 100..253 members: the signature's length byte at and beyond 128),
+    # between other values, so that stepping over the variant is exercised as well as entering it
+    for nmem in (100, 125, 126, 127, 128, 200, 253):
+        for mem in ("i", "y", "s"):
+            val = "b:i:1000003" if mem == "i" else ("b:y:65" if mem == "y" else "b:s:6869")
+            p = ["new:4", "hdr:1:o:" + b"/a".hex(), "hdr:2:s:" + b"a.b".hex(), "hdr:3:s:" + b"M".hex(), "serial:7", "b:s:" + (b"A" * 300).hex(),
+                 "open:v:(" + mem * nmem + ")", "open:r"] + [val] * nmem + ["close", "close", "b:i:7", "b:s:" + b"tail".hex()]
+            progs.append("wire build " + " ".join(p))
     def par(lines):
         k = max(1, (len(lines) + NCPU - 1) // NCPU)
         parts = [list(range(i, min(i + k, len(lines)))) for i in range(0, len(lines), k)]
